@@ -52,6 +52,12 @@ theorem bumpSv_core (tab : List CState) (t : List Handle) (s : CState) : SameCor
   · split <;> simp
   · simp
 
+theorem bumpWr_core (env : Env) (tab : List CState) (t : List Handle) (s : CState) : SameCore (bumpWr env tab t s) s := by
+  unfold bumpWr SameCore
+  split
+  · split <;> simp
+  · simp
+
 /-! ### disOne -/
 
 @[simp] theorem disOne_h (sk d ign nv now s) : (disOne sk d ign nv now s).h = s.h := by
@@ -631,10 +637,10 @@ theorem setContextState_ok {env : Env} {st : St} (hwf : WF env st) (ps : List CS
       · exact StepOk.refl' hwf rfl rfl rfl
       · have inv := propLoop_inv hwf.nodup hwf.lt_fresh hwf.env_lt ps
           (StepInv.init (nv := st.ver + 1) hwf.nodup hwf.lt_fresh hwf.not_descr hwf.uniq hwf.assoc_open) hk
-        refine ⟨inv.toPost.mapCore _ (bumpSv_core _ _), ?_, inv.fresh_le, .inr rfl⟩
+        refine ⟨inv.toPost.mapCore _ (bumpWr_core _ _ _), ?_, inv.fresh_le, .inr rfl⟩
         intro b hb
         obtain ⟨s, hs, rfl⟩ := List.mem_map.1 hb
-        rw [(bumpSv_core _ _ s).1]; exact inv.lt_fresh s hs
+        rw [(bumpWr_core _ _ _ s).1]; exact inv.lt_fresh s hs
 
 theorem setLocation_ok {env : Env} {st : St} (hwf : WF env st) (loc : Nat) (dh : Option Handle) :
     StepOk env st (setLocation env st loc dh).1 := by
